@@ -427,9 +427,26 @@ class Gen:
                 elif c < 0.10 and tab:
                     # every contact of one bucket (full ones preferred) has just replied: the 'all fresh' branch
                     full = [b for b in tab if len(b['peers']) >= K] or tab
-                    for q in rng.choice(full)['peers']:
+                    bk = rng.choice(full)
+                    pf = rng.choice([0.0, 0.0, 0.3, 1.0])
+                    for q in bk['peers']:
                         ops.append(['replied', q[1], q[2]])
                         impl.pm.report_last_replied(ip_str(q[1]), q[2] or None)
+                        if rng.random() < pf:        # a failure not older than the reply: the contact is not 'good'
+                            ops.append(['failure', q[1], q[2]])
+                            impl.pm.report_failure(ip_str(q[1]), q[2] or None)
+                    if rng.random() < 0.8:
+                        # ... then the clock moves to just before / exactly at / just after the 60 s mark and a
+                        # newcomer aimed at that very bucket arrives
+                        dt = rng.choice([59, 60, 60, 61, 0, 1])
+                        ops.append(['t', dt])
+                        impl.now += dt
+                        d = rng.randrange(bk['lo'], bk['hi'])
+                        cons2 = impl.contacts()
+                        o = ['add', hx(d ^ own), BASE_IP + 5000 + len(ops), 4444,
+                             [key_str(q[1], q[2]) for q in cons2 if rng.random() < p_dead], 0]
+                        ops.append(o)
+                        impl.add(impl.mk(int(o[1], 16), o[2], o[3]), set(o[4]))
                     continue
                 elif c < 0.07 + 0.18 * p_replied * 3 and cons:
                     q = rng.choice(cons)
@@ -545,6 +562,13 @@ def check_case(run, model, case, kind_label):
     run.count('max_buckets:' + ('1' if o.max_buckets == 1 else '2-4' if o.max_buckets <= 4 else
                                 '5-9' if o.max_buckets <= 9 else '10+'))
     run.disagreements_checked += o.compared
+    if o.kind and len(run.violations) + len(run.disagreements) >= 3:
+        # enough shrunk reproducers already; record the rest unshrunk
+        if o.kind == 'violation':
+            run.violation(case, o.what, signature={'own': case['own'], 'ops': case['ops'][:o.at + 1]})
+        else:
+            run.disagreement(o.what, dict(case, at=o.at), o.impl, o.model)
+        return o
     if o.kind == 'violation':
         small = shrink(model, case, 'violation')
         r = execute(model, small)
